@@ -139,16 +139,15 @@ impl Default for GenCfg {
             two_state_types: true,
             unguarded_per_mille: 100,
             allow_warnings: false,
-            avoid: KNOWN_FINDING_SHAPES.iter().map(|s| s.to_string()).collect(),
+            avoid: crate::findings::FINDINGS
+                .iter()
+                .map(|f| f.key.to_string())
+                .chain(crate::findings::MODULE_LEVEL_FINDINGS.iter().map(|f| f.0.to_string()))
+                .collect(),
             known_per_mille: 0,
         }
     }
 }
-
-/// Root-cause keys of the genuine defects of /repo found with this
-/// generator; each names a shape that `GenCfg::default()` replaces by an
-/// equivalent one (see README.md, "Known findings").
-pub const KNOWN_FINDING_SHAPES: &[&str] = &["signed-cast-of-select"];
 
 impl GenCfg {
     /// Only `assign out = expr;` over input ports (C18).
@@ -176,8 +175,14 @@ impl GenCfg {
             ..Default::default()
         }
     }
-    pub fn avoid(mut self, key: &str) -> GenCfg {
-        self.avoid.insert(key.to_string());
+    /// Do not avoid the known finding `key`.
+    pub fn allow(mut self, key: &str) -> GenCfg {
+        self.avoid.remove(key);
+        self
+    }
+    /// Avoid no known finding at all.
+    pub fn allow_all(mut self) -> GenCfg {
+        self.avoid.clear();
         self
     }
 }
@@ -212,6 +217,10 @@ struct MGen<'c> {
     names: u32,
     /// loop variable → exclusive upper bound of its values
     loop_ranges: BTreeMap<DeclId, u32>,
+    /// unsigned decls that are only ever read as `$signed(v)` (a variable
+    /// read both plain and under `$signed` in one module hits the known
+    /// finding `signed-cast-shares-signedness`)
+    cast_only: BTreeSet<DeclId>,
 }
 
 pub fn width_class(w: u32) -> &'static str {
@@ -267,6 +276,7 @@ impl<'c> MGen<'c> {
             excluded: BTreeMap::new(),
             names: 0,
             loop_ranges: BTreeMap::new(),
+            cast_only: BTreeSet::new(),
         }
     }
 
@@ -296,6 +306,15 @@ impl<'c> MGen<'c> {
             init: None,
         });
         self.m.decls.len() - 1
+    }
+
+    /// Reserve an unsigned scalar for `$signed(..)` use now and then.
+    fn maybe_cast_only(&mut self, d: &mut Draw, id: DeclId) {
+        let dd = &self.m.decls[id];
+        let plain = dd.array.is_none() && matches!(dd.syntax, TySyntax::Logic | TySyntax::Bit | TySyntax::Fixed);
+        if self.cfg.signed && self.cfg.sign_casts && plain && !dd.ty.signed && self.cfg.avoid.contains("signed-cast-shares-signedness") && d.chance(1, 5) {
+            self.cast_only.insert(id);
+        }
     }
 
     fn gen_ty(&mut self, d: &mut Draw) -> Ty {
@@ -357,7 +376,10 @@ impl<'c> MGen<'c> {
         let mut cands: Vec<(DeclId, u32)> = vec![];
         for &v in &sc.vars {
             let dd = &self.m.decls[v];
-            if dd.array.is_some() || matches!(dd.syntax, TySyntax::Struct(_) | TySyntax::Enum(_) | TySyntax::LogicOf(_)) || dd.ty.signed {
+            if self.cast_only.contains(&v) {
+                continue;
+            }
+            if dd.array.is_some() || matches!(dd.syntax, TySyntax::Struct(_) | TySyntax::Enum(_) | TySyntax::LogicOf(_)) || (dd.ty.signed && dd.kind != DeclKind::LoopVar) {
                 continue;
             }
             match dd.kind {
@@ -413,7 +435,7 @@ impl<'c> MGen<'c> {
             .copied()
             .filter(|&v| {
                 let k = &self.m.decls[v].kind;
-                !sc.const_only || matches!(k, DeclKind::Const | DeclKind::Param | DeclKind::LoopVar)
+                !self.cast_only.contains(&v) && (!sc.const_only || matches!(k, DeclKind::Const | DeclKind::Param | DeclKind::LoopVar))
             })
             .collect()
     }
@@ -539,14 +561,9 @@ impl<'c> MGen<'c> {
         true
     }
 
-    /// `$signed(e)`; a bit/part select operand is wrapped into a
-    /// concatenation when the finding `signed-cast-of-select` is avoided.
-    fn mk_signed(&mut self, d: &mut Draw, e: Expr) -> Expr {
+    /// `$signed(e)`
+    fn mk_signed(&mut self, _d: &mut Draw, e: Expr) -> Expr {
         self.class("cast:$signed");
-        let is_sel = matches!(&e, Expr::Ref(r) if !matches!(r.sel, Sel::None));
-        if is_sel && self.avoid(d, "signed-cast-of-select") {
-            return Expr::Signed(Box::new(Expr::Concat(vec![(e, None)])));
-        }
         Expr::Signed(Box::new(e))
     }
 
@@ -563,16 +580,34 @@ impl<'c> MGen<'c> {
     }
 
     fn gen_leaf(&mut self, d: &mut Draw, sc: &Scope, hint: Option<Ty>, sg: bool) -> Expr {
-        let e = if d.chance(1, 4) {
-            None
-        } else {
-            self.gen_ref(d, sc)
-        };
-        let e = match e {
+        if sg {
+            // signed leaves: signed literal, signed variable, $signed(whole unsigned variable)
+            let shares = self.cfg.avoid.contains("signed-cast-shares-signedness");
+            let vars: Vec<DeclId> = sc
+                .vars
+                .iter()
+                .copied()
+                .filter(|&v| {
+                    let dd = &self.m.decls[v];
+                    let konst = matches!(dd.kind, DeclKind::Const | DeclKind::Param | DeclKind::LoopVar);
+                    dd.array.is_none()
+                        && !matches!(dd.syntax, TySyntax::Struct(_) | TySyntax::Enum(_))
+                        && (!sc.const_only || konst)
+                        && (dd.ty.signed || (!konst && (!shares || self.cast_only.contains(&v))))
+                })
+                .collect();
+            if vars.is_empty() || d.chance(1, 4) {
+                return self.gen_lit(d, hint, Some(true));
+            }
+            let v = vars[d.below_usize(vars.len())];
+            let e = Expr::var(v);
+            return self.force_sign(d, e, true);
+        }
+        let e = if d.chance(1, 4) { None } else { self.gen_ref(d, sc) };
+        match e {
             Some(e) => e,
-            None => self.gen_lit(d, hint, if sg { Some(true) } else { None }),
-        };
-        if sg { self.force_sign(d, e, true) } else { e }
+            None => self.gen_lit(d, hint, None),
+        }
     }
 
     /// 1-bit expression (operand of `&& || !`, conditions)
@@ -689,7 +724,7 @@ impl<'c> MGen<'c> {
             w(c.case_expr, 1),                   // 14 case
             w(c.switch_expr, 1),                 // 15 switch
             w(c.inside && !sg, 1),               // 16 inside
-            w(has_funcs && !sc.const_only, 1),   // 17 call
+            w(has_funcs && !sc.const_only && !sg, 1), // 17 call
             w(c.fill_lits && !sg, 1),            // 18 op with '0 / '1
         ];
         let k = d.weighted(&weights);
@@ -836,7 +871,7 @@ impl<'c> MGen<'c> {
                 if matches!(a, Expr::Lit(Lit::AllOne | Lit::AllZero)) {
                     a = self.gen_leaf(d, sc, hint, true);
                 }
-                let to = if d.chance(1, 3) {
+                let to = if !sg && d.chance(1, 3) {
                     let t = *d.pick(&[Ty::u(8), Ty::u(16), Ty::u(32), Ty::u(64), Ty::s(8), Ty::s(16), Ty::s(32), Ty::s(64)]);
                     self.class("cast:fixed");
                     CastTo::Fixed(t)
@@ -929,17 +964,50 @@ impl<'c> MGen<'c> {
         e
     }
 
+    /// Run `f` until the expression it returns matches no avoided known
+    /// finding (see `findings.rs`) when assigned to a `dest_w`-bit target;
+    /// after a few tries fall back to a literal.
+    fn checked(&mut self, d: &mut Draw, dest_w: u32, f: &mut dyn FnMut(&mut Self, &mut Draw) -> Expr) -> Expr {
+        for _ in 0..4 {
+            let saved = self.classes.clone();
+            let e = f(self, d);
+            let hits = crate::findings::hits(&self.m, &e, dest_w);
+            let bad: Vec<&str> = hits.into_iter().filter(|k| self.cfg.avoid.contains(*k)).collect();
+            if bad.is_empty() {
+                return e;
+            }
+            if self.cfg.known_per_mille > 0 && d.chance(self.cfg.known_per_mille, 1000) {
+                for k in &bad {
+                    self.class(&format!("known:{k}"));
+                }
+                return e;
+            }
+            for k in bad {
+                self.exclude(k);
+            }
+            self.classes = saved;
+        }
+        Expr::lit(Ty::u(dest_w.max(1)), gen_value(d, dest_w.max(1)))
+    }
+
     /// Top-level expression for a target of type `t`: picks the signed mode
     /// now and then so that signed contexts are well represented.
     fn gen_rhs(&mut self, d: &mut Draw, sc: &Scope, t: Ty) -> Expr {
-        let sg = self.cfg.signed && d.chance(1, 4);
-        let depth = 1 + d.below(self.cfg.expr_depth);
-        let hint = if d.chance(1, 2) { Some(t) } else { None };
-        let e = self.gen_expr(d, sc, depth, hint, sg);
-        if sg {
-            self.class("ctx:signed_rhs");
-        }
-        e
+        self.checked(d, t.w, &mut |this, d| {
+            let sg = this.cfg.signed && d.chance(1, 4);
+            let depth = 1 + d.below(this.cfg.expr_depth);
+            let hint = if d.chance(1, 2) { Some(t) } else { None };
+            let e = this.gen_expr(d, sc, depth, hint, sg);
+            if sg {
+                this.class("ctx:signed_rhs");
+            }
+            e
+        })
+    }
+
+    /// Condition of a statement (1 bit, self-determined).
+    fn gen_cond(&mut self, d: &mut Draw, sc: &Scope, depth: u32) -> Expr {
+        self.checked(d, 1, &mut |this, d| this.gen_bool(d, sc, depth))
     }
 }
 
